@@ -267,7 +267,7 @@ class Checkers(object):
                 if n.get('k') == 'Call' and n['f'].get('k') == 'Def' and n['f'].get('dk', '').startswith('Ctor'):
                     cp = S.norm_path(n['f']['path'])
                     if cp in ('io_loop::IoLoopMessage::SetReturnHandler', 'io_loop::IoLoopMessage::SetPubConfirmHandler'):
-                        makers.setdefault(cp, set()).add(p)
+                        makers.setdefault(cp, set()).add(ctx.owner(p))
         want = {'io_loop::IoLoopMessage::SetReturnHandler': {'io_loop::io_loop_handle::IoLoopHandle::set_return_handler'},
                 'io_loop::IoLoopMessage::SetPubConfirmHandler': {'io_loop::io_loop_handle::IoLoopHandle::set_pub_confirm_handler'}}
         if makers != want:
@@ -284,7 +284,7 @@ class Checkers(object):
                 continue
             for n in H.walk(fn['hir']):
                 if n.get('k') == 'Struct' and H.res_path(n['res']) == 'io_loop::channel_handle::ChannelHandle':
-                    built.add(p)
+                    built.add(ctx.owner(p))
         if built != {'io_loop::channel_handle::Channel0Handle::open_channel'}:
             return False, 'ChannelHandle constructed in %s' % sorted(built)
         ok, why = self.run('explicit_id_zero_rejected')
